@@ -110,6 +110,10 @@ def events():
            # the caller's EMPTY list, rendering a held validation result
            ("repr_indent", 2), ("repr_indent", 3), ("repr_indent", "last"), ("declare_list_E0",),
            ("validate", 2, "v_short"), ("format_R",)]
+    # a conversion that FAILS part-way on the caller's container (an unconvertible member at the
+    # top / inside the nested dict), after which the caller removes the member again
+    ev += [("from_native_fail", "top"), ("from_native_fail", "nested"), ("subst_untyped_fail", "top"),
+           ("subst_untyped_fail", "nested")]
     ev += [("subst_untyped", vn) for vn in COLLIDING_LISTS]
     ev += [("subst_untyped_dict", vn) for vn in COLLIDING[:3]]
     muts = [("mut", "E0.append"), ("mut", "L0.append"), ("mut", "L0.clear"), ("mut", "L0.setitem"), ("mut", "D0.set"),
@@ -216,6 +220,25 @@ def step(st, e, rng):
             return from_native(v), args
         if k == "from_native_v":
             return from_native(arg(e[1], VALS[e[1]])), args
+        if k in ("from_native_fail", "subst_untyped_fail"):
+            v = arg("V0", st.V0)
+            inner = v[1] if len(v) > 1 and isinstance(v[1], dict) else None
+            try:
+                if e[1] == "nested" and inner is not None:
+                    inner["zz"] = OPAQUE
+                else:
+                    v.append(OPAQUE)
+                try:
+                    o = from_native(v) if k == "from_native_fail" else substitute(schema.list, v)
+                    o = ("no-error", safe_repr(o, 200))
+                except Exception as ex:  # noqa: BLE001
+                    o = ("EXC", type(ex).__name__)
+            finally:
+                if e[1] == "nested" and inner is not None:
+                    inner.pop("zz", None)
+                else:
+                    v.pop()
+            return o, args
         if k == "subst_untyped":
             return substitute(schema.list, arg(e[1], VALS[e[1]])), args
         if k == "subst_untyped_dict":
@@ -364,7 +387,7 @@ def core_events():
     keep = []
     for e in events():
         if e[0] in ("from_native_v", "subst_untyped", "subst_untyped_dict", "repr_indent", "format_R",
-                    "second_instances", "eq_value"):
+                    "second_instances", "eq_value", "subst_untyped_fail") or e == ("from_native_fail", "nested"):
             continue
         if len(e) > 2 and e[2] in MISSING:
             continue
@@ -431,7 +454,7 @@ MINI = [("repr", 2), ("repr", 3), ("gen", 3), ("validate", 3, "v_dict"), ("subst
         ("add", 3, 3), ("or", 2, 4), ("mkreq", 3, None), ("refine_ok", 3), ("refine_fail", 3),
         ("iter", 3), ("from_native", "V0"), ("eq", 3, 3), ("subst_untyped", "v_one_list"),
         ("from_native_v", "v_fzero"), ("from_native_v", "v_false"), ("second_instances",),
-        ("subst", 5, "E0"), ("refine_fail_last",)]
+        ("subst", 5, "E0"), ("refine_fail_last",), ("from_native_fail", "top")]
 
 
 def sequences(tier):
